@@ -31,6 +31,7 @@ RULE += ' Round 6: template_scaling in params.py (each unwhitened record carries
 RULE += ' Round 7: get_amplitudes_true / templates_channels and refused requests (unknown template, out-of-range channel, with a threshold) between the judged requests; whitening matrices and templates scaled by 1e8.'
 RULE += ' Round 8: save_spikes_subset_waveforms(max_n_channels > 12) between template requests; geometries in metres / millimetres, distances compared relative to the geometry; exactly silent channels inside the neighbourhood.'
 RULE += ' Round 9: one template seven orders of magnitude larger than the others.'
+RULE += ' Round 11: datasets shipping only the inverse whitening matrix.'
 EXHAUSTIVE = {'quick': False, 'thorough': False}
 FLOORS = {'quick': {'evaluations': 15000, 'distinct_nontrivial': 8000},
           'thorough': {'evaluations': 80000, 'distinct_nontrivial': 30000}}
